@@ -117,6 +117,9 @@ type pubNodeBase struct {
 
 	// msgChan is an internal channel where messages from msgFetcher are collected
 	msgChan chan *Message
+	// stopped is closed when the node stops running (see cleanup), it releases
+	// a pending InjectControlMessage.
+	stopped chan struct{}
 }
 
 // Trigger sets up 2 goroutines, one that listens to the external error channel
@@ -145,6 +148,7 @@ func (n *pubNodeBase) Trigger(
 
 	n.running = true
 	n.msgChan = make(chan *Message)
+	n.stopped = make(chan struct{})
 	internalErrChan := make(chan error)
 
 	if externalErrChan != nil {
@@ -206,15 +210,23 @@ func (n *pubNodeBase) Trigger(
 // to implement.
 func (n *pubNodeBase) InjectControlMessage(ctx context.Context, msgType ControlMessageType, r opencdc.Record) error {
 	n.lock.Lock()
-	defer n.lock.Unlock()
 	if !n.running {
+		n.lock.Unlock()
 		return cerrors.New("tried to inject control message but PubNode is not running")
 	}
+	msgChan, stopped := n.msgChan, n.stopped
+	// Do not hold the lock while waiting for the node to take the message: the
+	// node may be busy sending a message downstream and stop from there (its
+	// context gets cancelled), in which case its cleanup needs the lock and
+	// nobody will ever receive from msgChan.
+	n.lock.Unlock()
 
 	select {
 	case <-ctx.Done():
 		return ctx.Err()
-	case n.msgChan <- &Message{controlMessageType: msgType, Record: r}:
+	case <-stopped:
+		return cerrors.New("tried to inject control message but PubNode stopped running")
+	case msgChan <- &Message{controlMessageType: msgType, Record: r}:
 		return nil
 	}
 }
@@ -227,6 +239,10 @@ func (n *pubNodeBase) cleanup(ctx context.Context, logger log.CtxLogger) {
 	close(n.out)
 	n.out = nil
 	n.running = false
+	if n.stopped != nil {
+		close(n.stopped)
+		n.stopped = nil
+	}
 	logger.Trace(ctx).Msg("PubNode cleaned up")
 }
 
